@@ -3311,6 +3311,7 @@ func (p *Posix) DeleteObject(ctx context.Context, input *s3.DeleteObjectInput) (
 			if err != nil {
 				return nil, fmt.Errorf("set delete marker: %w", err)
 			}
+			verifhook.At("posix.deleteobject.marker.between")
 
 			versionId := nullVersionId
 			if p.isBucketVersioningEnabled(vStatus) {
